@@ -190,6 +190,13 @@ func runC15(ctx *core.Ctx) {
 				default:
 					in = "<textarea>" + strings.Repeat("<b>", n/3) + "</textarea><i>z</i>"
 				}
+			case 4: // length exactly 4096 / 8192 (and one byte around it)
+				var b strings.Builder
+				for b.Len() < 9000 {
+					b.WriteString(env.HostileInput(r))
+				}
+				n := []int{4096, 8192, 4095, 4097, 8191, 8193}[r.Intn(6)]
+				in = b.String()[:n]
 			case 1: // whitespace only
 				in = gen.Pick(r, []string{" ", "\n", "\t \r\n", "  ", "\f", " ", "  ", "\x0b"})
 			case 2:
